@@ -199,8 +199,8 @@ GRIDS_3TRACK = [(b'E20 ', b'-4--'), (b'E2E ', b'-1--'), (b'E2E ', b'-2--'), (b'E
                 (b'EEB ', b'--- '), (b'EB0 ', b'--- '), (b'EEE ', b'EEE ')]
 #: the four track film of 200099.S07
 GRID_4TRACK = (b'LLLL', b'1111')
-#: DSCA codes of FILMCfg.PhysFilmCfgLISRead.DSCA_MAP that a four byte table cell can hold -> 1:scale
-DSCA_SCALE = {b'D20 ': 20, b'D40 ': 40, b'D200': 200, b'S5  ': 240, b'D500': 500, b'S2  ': 600, b'DM  ': 1000}
+#: the DSCA codes of FILMCfg.PhysFilmCfgLISRead.DSCA_MAP (four byte table cells) -> 1:scale
+DSCA_SCALE = {b'D20 ': 20, b'D40 ': 40, b'D200': 200, b'D240': 240, b'S5  ': 240, b'D500': 500, b'S2  ': 600, b'DM  ': 1000}
 DSCA_CODES = sorted(DSCA_SCALE)
 #: film layout in inches from the left margin, as FILMCfg documents it (three tracks of 2.4 in with a 0.8 in depth track
 #: between T1 and T2; "Four track. Depth 1in, 4 tracks at 1.75in")
